@@ -45,6 +45,8 @@ def problem(subseed, force_variant=None):
     variant = force_variant or variant
     if variant == "wide":
         x0 = x0 * 10.0
+    if variant == "warm":
+        x0 = c.copy()  # warm start at the minimiser: nothing found later can beat the start
     return dict(subseed=int(subseed), D=D, A=A.tolist(), lam=lam.tolist(), c=c.tolist(), x0=x0.tolist(), random_seed=seed, variant=variant)
 
 
@@ -104,8 +106,27 @@ def body(case):
                                                            evals_to_1e2=out["evals_to_1e2"]), record=rec)
 
 
+N_WARM = {"quick": 16, "thorough": 96}
+
+
+def body_warm(case):
+    """Per-run clause only: a warm start at the minimiser (in the standard box) must be returned, not something worse."""
+    p = problem(case, force_variant="warm")
+    try:
+        out = run_problem(p)
+    except Exception as e:  # noqa: BLE001
+        info = harness.exc_info(e)
+        return dict(violations=[], labels=["warm", "exception:" + info["type"]], nontrivial=False, oracle_evals=1, sample=p)
+    v = []
+    if out["fx"] > out["f_start"]:
+        v.append(viol("per-run:worse-than-start", f"warm start: f(result.x)={out['fx']!r} > f(first evaluated point)={out['f_start']!r} (D={p['D']})",
+                      site="warm-start"))
+    return dict(violations=v, labels=["warm", f"warm:D={p['D']}"], nontrivial=p["D"] >= 2, oracle_evals=1,
+                sample=dict(D=p["D"], x0=p["x0"], f_start=out["f_start"], fx=out["fx"]))
+
+
 def plan(tier):
-    return [("panel", 16)]
+    return [("panel", 16), ("warm", 8)]
 
 
 def run_part(res, part, tier, seed, shard, nshards):
@@ -115,6 +136,9 @@ def run_part(res, part, tier, seed, shard, nshards):
             res.notes.append(out["record"])
         return out
 
+    if part == "warm":
+        return engine.hyp_sweep(res, st.integers(0, 2**32 - 1), body_warm, runlevel.shard_count(N_WARM[tier], shard, nshards),
+                                seed * 1000 + 400 + shard, case_timeout=1200)
     n = runlevel.shard_count(N[tier], shard, nshards)
     engine.hyp_sweep(res, st.integers(0, 2**32 - 1), b, n, seed * 1000 + shard, case_timeout=1200)
 
@@ -135,6 +159,15 @@ def finalize(agg, tier, seed):
                                        for vv in ("standard", "unbounded", "wide")},
                           crashed_runs=[(r["subseed"], r.get("exception")) for r in recs if r.get("exception")])
     worst = sorted(recs, key=lambda r: -r["gap"])[:5]
+    # any sub-panel of >= 60 problems from the family is a panel in the statement's sense: apply the threshold per dimension
+    for d_ in range(1, 6):
+        sub = [r for r in recs if r["D"] == d_]
+        if len(sub) >= 60:
+            fr = sum(1 for r in sub if r["gap"] < 1e-3) / len(sub)
+            agg["summary"].setdefault("per_D_fraction_within_1e3", {})[str(d_)] = fr
+            if fr < 0.90:
+                out.append((viol("panel:success-rate", f"D={d_} sub-panel: only {fr:.3f} of {len(sub)} problems within 1e-3", site=f"D={d_}"),
+                            dict(panel_seed=seed, worst=sorted(sub, key=lambda r: -r["gap"])[:5])))
     if len(recs) >= 60 and frac < 0.90:
         out.append((viol("panel:success-rate", f"only {frac:.3f} of {len(recs)} problems within 1e-3 of the minimum (worst gaps: "
                          f"{[(r['subseed'], r['D'], r['gap']) for r in worst]})"), dict(panel_seed=seed, worst=worst)))
@@ -148,6 +181,8 @@ def minimise(part, tier, sig, case, seed):
 
 
 def replay(part, case):
+    if part == "warm":
+        return body_warm(int(case))["violations"]
     if part == "finalize" or isinstance(case, dict):
         outs = []
         for r in case.get("worst", []):
